@@ -36,7 +36,7 @@ NAMES = ["a.bf3", "b.bf3", "c.bf3"]
 
 def gen(st, tier):
     w = st["workload"]
-    if w.random() < 0.05:
+    if w.random() < 0.035:
         # concurrent callers: each thread writes and reads back its own file, the simulator owns the switches
         from sim import conc
         n = w.choice([2, 2, 3])
